@@ -805,7 +805,124 @@ pub fn h_bytes(b: &[u8]) -> String {
     d.iter().take(6).map(|x| format!("{:02x}", x)).collect()
 }
 
+/// Debug renderings of hash maps/sets (`{"k": v, ..}` not preceded by a type name) list their entries in
+/// the order of the map's own random keys: sort the entries, recursively, so that two equal maps render equally.
+pub fn canon_maps(s: &str) -> String {
+    let b: Vec<char> = s.chars().collect();
+    fn close(b: &[char], open: usize) -> Option<usize> {
+        // index of the bracket matching b[open], honouring string literals
+        let mut depth = 0i32;
+        let mut i = open;
+        let mut in_str = false;
+        while i < b.len() {
+            let c = b[i];
+            if in_str {
+                if c == '\\' {
+                    i += 1;
+                } else if c == '"' {
+                    in_str = false;
+                }
+            } else {
+                match c {
+                    '"' => in_str = true,
+                    '{' | '[' | '(' => depth += 1,
+                    '}' | ']' | ')' => {
+                        depth -= 1;
+                        if depth == 0 {
+                            return Some(i);
+                        }
+                    }
+                    _ => {}
+                }
+            }
+            i += 1;
+        }
+        None
+    }
+    fn go(b: &[char]) -> String {
+        let mut out = String::with_capacity(b.len());
+        let mut i = 0;
+        let mut in_str = false;
+        while i < b.len() {
+            let c = b[i];
+            if in_str {
+                out.push(c);
+                if c == '\\' && i + 1 < b.len() {
+                    out.push(b[i + 1]);
+                    i += 1;
+                } else if c == '"' {
+                    in_str = false;
+                }
+                i += 1;
+                continue;
+            }
+            if c == '"' {
+                in_str = true;
+                out.push(c);
+                i += 1;
+                continue;
+            }
+            if c == '{' {
+                let prev = out.trim_end().chars().last();
+                let is_struct = prev.map(|p| p.is_alphanumeric() || p == '_' || p == '>').unwrap_or(false);
+                if let Some(end) = close(b, i) {
+                    let inner = &b[i + 1..end];
+                    if is_struct {
+                        out.push('{');
+                        out.push_str(&go(inner));
+                        out.push('}');
+                    } else {
+                        // split the entries at depth 0
+                        let mut entries: Vec<String> = Vec::new();
+                        let mut depth = 0i32;
+                        let mut start = 0usize;
+                        let mut q = false;
+                        let mut k = 0usize;
+                        while k < inner.len() {
+                            let d = inner[k];
+                            if q {
+                                if d == '\\' {
+                                    k += 1;
+                                } else if d == '"' {
+                                    q = false;
+                                }
+                            } else {
+                                match d {
+                                    '"' => q = true,
+                                    '{' | '[' | '(' => depth += 1,
+                                    '}' | ']' | ')' => depth -= 1,
+                                    ',' if depth == 0 => {
+                                        entries.push(go(&inner[start..k]).trim().to_string());
+                                        start = k + 1;
+                                    }
+                                    _ => {}
+                                }
+                            }
+                            k += 1;
+                        }
+                        let last = go(&inner[start.min(inner.len())..]).trim().to_string();
+                        if !last.is_empty() {
+                            entries.push(last);
+                        }
+                        entries.sort();
+                        out.push('{');
+                        out.push_str(&entries.join(", "));
+                        out.push('}');
+                    }
+                    i = end + 1;
+                    continue;
+                }
+            }
+            out.push(c);
+            i += 1;
+        }
+        out
+    }
+    go(&b)
+}
+
 fn h(s: String) -> String {
+    let s = if s.contains(": {") || s.contains("({") { canon_maps(&s) } else { s };
     let s = norm_repr(&s);
     if std::env::var("USIM_DEBUG_DEEP").is_ok() {
         return s;
